@@ -27,7 +27,8 @@ MCInit == (\E c \in MCCfgs : InitWith(c)) /\ nb = 0 /\ nf = 0
 \* taken in member order (they commute; everything a faulty member does may still interleave anywhere).
 NextToAsk(h, s) == CHOOSE m \in Members : ~Answered(h, s, m) /\ \A k \in Members : k < m => Answered(h, s, k)
 AllAnswered(h, s) == \A m \in Members : Answered(h, s, m)
-Delivers(r, s, from, id, pl, sigs) == Verify(s, id, pl, sigs) /\ [from |-> from, id |-> id, pl |-> pl] \notin raw[r][s]
+Delivers(r, s, from, id, pl, sigs) == Verify(s, id, pl, sigs) /\ [from |-> from, id |-> id, pl |-> pl] \notin Invoked(r, s)
+FSendOrRelay(f, r, s, id, pl, sigs) == FSend(f, r, s, id, pl, sigs) \/ RelayForeignPayload(f, r, s, id, pl, sigs)
 MCNext ==
   \/ /\ nb < MaxB /\ ~SomeActive /\ nb' = nb + 1 /\ UNCHANGED nf
      /\ \E h \in Honest, s \in Sessions, id \in Ids, b \in Bodies : BStart(h, s, id, [origin |-> h, body |-> b, ok |-> TRUE])
@@ -59,11 +60,11 @@ MCNext ==
               /\ IF Lists = "best"
                    THEN /\ Complete(s, id, pl) /\ Verify(s, id, pl, BestList(s, id, pl))
                         /\ \E r \in Honest : /\ Delivers(r, s, f, id, pl, BestList(s, id, pl))
-                                             /\ FSend(f, r, s, id, pl, BestList(s, id, pl))
+                                             /\ FSendOrRelay(f, r, s, id, pl, BestList(s, id, pl))
                    ELSE /\ \E g \in known : g.pl = pl
                         /\ \E sigs \in AttackLists(s, id, pl) :
                               /\ Verify(s, id, pl, sigs)
-                              /\ \E r \in Honest : Delivers(r, s, f, id, pl, sigs) /\ FSend(f, r, s, id, pl, sigs)
+                              /\ \E r \in Honest : Delivers(r, s, f, id, pl, sigs) /\ FSendOrRelay(f, r, s, id, pl, sigs)
 MCSpec == MCInit /\ [][MCNext]_mcvars
 \* a message that fails verification is not delivered, whatever the list (sanity of Verify against the repertoire)
 Sym == Permutations(Bodies) \cup Permutations(Sessions) \cup Permutations(Allowed)
@@ -71,6 +72,7 @@ Cfg3 == {[n |-> 3, faulty |-> {1}]}
 Cfg3all == {[n |-> 3, faulty |-> {f}] : f \in 1..3}
 Cfg4 == {[n |-> 4, faulty |-> {2}]}
 Cfg34 == Cfg3 \cup Cfg4
-CfgAll == {[n |-> n, faulty |-> {f}] : n \in 3..4, f \in 1..2} \cup {[n |-> 3, faulty |-> {3}], [n |-> 4, faulty |-> {4}], [n |-> 5, faulty |-> {3}], [n |-> 3, faulty |-> {}]}
+CfgAll == {[n |-> n, faulty |-> {f}] : n \in 3..4, f \in 1..2} \cup {[n |-> 3, faulty |-> {3}], [n |-> 4, faulty |-> {4}], [n |-> 3, faulty |-> {}]}
+Cfg5 == {[n |-> 5, faulty |-> {3}]}
 Cfg4two == {[n |-> 4, faulty |-> {1, 2}]}
 ====
